@@ -451,9 +451,9 @@ Proof.
       rewrite (smerge_cons cmp x (a :: A) b B), (smerge_cons cmp a A b B). fold (lep x b). fold (lep a b).
       destruct (lep a b) eqn:Eab.
       * cbn [insertp]. rewrite Exa. replace (lep x b) with true by (symmetry; eapply cmp_trans; eassumption).
-        rewrite smerge_cons. fold (lep a b). rewrite Eab. reflexivity.
+        try (rewrite smerge_cons; fold (lep a b); rewrite Eab). reflexivity.
       * cbn [insertp]. destruct (lep x b) eqn:Exb.
-        -- rewrite smerge_cons. fold (lep a b). rewrite Eab. reflexivity.
+        -- try (rewrite smerge_cons; fold (lep a b); rewrite Eab). reflexivity.
         -- rewrite IHB. reflexivity.
     + induction B as [|b B IHB]; [rewrite !smerge_nil_r; cbn [insertp]; rewrite Exa; reflexivity|].
       rewrite (smerge_cons cmp a (insertp x A) b B), (smerge_cons cmp a A b B). fold (lep a b).
